@@ -129,6 +129,9 @@ Cat(a, b) == [sp |-> a.sp, sh |-> <<a.sh[1] + b.sh[1]>> \o Tail(a.sh), c |-> a.c
 CatValid(a, b) == a.sp = b.sp /\ Tail(a.sh) = Tail(b.sh)
 Repeat(t, n) == [sp |-> t.sp, sh |-> <<n * t.sh[1]>> \o Tail(t.sh),
                  c |-> [r \in 1..(n * Len(t.c)) |-> t.c[((r - 1) % Len(t.c)) + 1]]]
+\* repeat with one count per batch axis on a two-axis table: torch tiling, axis by axis
+Repeat2(t, n1, n2) == [sp |-> t.sp, sh |-> <<n1 * t.sh[1], n2 * t.sh[2]>>,
+                       c |-> [a \in 1..(n1 * t.sh[1]) |-> [b \in 1..(n2 * t.sh[2]) |-> t.c[((a - 1) % t.sh[1]) + 1][((b - 1) % t.sh[2]) + 1]]]]
 Unsq(t, d) == IF d = 0 THEN [sp |-> t.sp, sh |-> <<1>> \o t.sh, c |-> <<t.c>>]        \* one batch axis in, two out
               ELSE [sp |-> t.sp, sh |-> t.sh \o <<1>>, c |-> [r \in DOMAIN t.c |-> <<t.c[r]>>]]
 Arith(a, b, op) == [sp |-> a.sp, sh |-> a.sh,
